@@ -67,7 +67,7 @@ REQUIRED_CLASSES = (
                                    "top-right-corner", "bottom-left-corner", "bottom-right-corner")]
     + ["ops:%s:%s" % (o, f) for o in ("Dx", "Dy", "Dxx", "Dxy", "Dyy") for f in ("constant", "linear")]
     + ["ops:Dxy:bilinear", "ops:Dxx:quadratic:interior", "ops:Dyy:quadratic:interior",
-       "admt:ops=generated", "admt:order=col", "admt:order=row", "admt:order=snake", "admt:finite", "admt:constants", "admt:aniso=1:identity:psi=linear",
+       "admt:ops=generated", "admt:order=col", "admt:order=row", "admt:order=snake", "admt:finite", "admt:constants", "admt:psi-rescaled", "admt:aniso=1:identity:psi=linear",
        "admt:aniso=1:identity:psi=quadratic", "admt:aniso=1:identity:psi=higher", "admt:aniso=1:identity:no-interior",
        "admt:coefficients:quadratic-psi:interior:aniso=1", "admt:coefficients:quadratic-psi:interior:aniso>1",
        "admt:psi:vanishing-gradient:skipped", "ladder:checked", "ladder:aniso=1", "ladder:aniso>1"]
@@ -298,6 +298,9 @@ def _read_coefficients(A, s, mono, rows):
     return np.array([(A[rows] * mono[k][rows]).sum(axis=1) / s / div[k] for k in range(5)])
 
 
+PSI_RESCALE = 2.0e-4      # a flux map given in other units (Wb -> 5 kWb): |grad psi|^2 drops below 1e-6 at gradients of order one
+
+
 def _admt_case(case):
     import numpy as np
     from cherab.tools.inversions.admt_utils import calculate_admt
@@ -382,6 +385,20 @@ def _admt_case(case):
                         j = int(np.argmax(np.abs(A[i] - lap[i])))
                         viol.add(sig, "row %d [%s] differs from sqrt(dx dy)(Dxx + Dyy + Dx/R) in column %d; %s" % (i, R.cell_class(g, i), j, desc),
                                  float(lap[i, j]), float(A[i, j]))
+            # E: only the direction of grad psi enters (b = grad psi / |grad psi|): the flux map in other units gives the same operator
+            classes.append("admt:psi-rescaled")
+            try:
+                A2 = np.asarray(calculate_admt(Xc.copy(), ops, (pv * PSI_RESCALE).copy(), dx, dy, anisotropy=a))
+                tolE = 1e-9 * np.maximum(np.abs(A).max(axis=1), 1e-300)
+                badE = np.flatnonzero(~(np.abs(A2 - A).max(axis=1) <= tolE))
+                if badE.size:
+                    i = int(badE[0])
+                    j = int(np.argmax(np.abs(A2[i] - A[i])))
+                    viol.add("admt:depends-on-the-units-of-psi:aniso%s" % ("=1" if a == 1 else ">1"),
+                             "row %d [%s], column %d: calculate_admt(psi x %g) differs from calculate_admt(psi); %s" % (i, R.cell_class(g, i), j, PSI_RESCALE, desc),
+                             float(A[i, j]), float(A2[i, j]))
+            except Exception as e:  # noqa
+                viol.add("calculate_admt:psi-rescaled:raises:%s" % type(e).__name__, desc, "an operator", repr(e)[:200])
             # D: quadratic flux map, interior cells: coefficients of div(D grad f)
             if pcls != "higher" and have_int:
                 classes.append("admt:coefficients:quadratic-psi:interior:aniso%s" % ("=1" if a == 1 else ">1"))
